@@ -14,8 +14,8 @@ CHECKS = {
  "C19": dict(text="Every clause of the property is a Lean theorem decided by kernel evaluation over the complete tables "
                   "(9 types, 4 classes, 4 categories, both port maps) which the translator regenerates from the working tree on "
                   "every run; the class guards are additionally exercised by constructing all 36 (class, type) pairs for real.",
-             note="Trusted: Lean kernel (axioms: propext at most), translator (import of the enums/dicts, AST of the class "
-                  "guards), exhaustive correspondence of the guards.",
+             note="Trusted: Lean kernel (axioms: propext at most), translator (import of the enums/dicts; class guards observed by constructing all 36 (class, type) "
+                  "pairs), exhaustive correspondence of the guards, repeated in other orders and after bridge traffic.",
              tech="Lean 4 `decide` over tables regenerated from source + exhaustive correspondence (36 constructions)",
              ref="§7 C19"),
  "C12": dict(text="Lean theorems for ALL duplicate-free day collections of any length/order (induction: sum of bit values = mask of "
@@ -38,7 +38,7 @@ CHECKS = {
                   "arguments write no command frame. The model's frames are compared byte for byte with the frames the real API "
                   "objects write (all 12 public operations incl. thermostat control), and every real frame is judged by Spec.wellFormedB.",
              note="Trusted: Lean kernel (propext, Classical.choice, Quot.sound), translator (templates via string.Formatter.parse, "
-                  "format-argument wiring via ast), scripted in-memory streams instead of sockets, CPython primitives as modelled. "
+                  "format-argument wiring observed by tracing one run per operation shape, harness/trace_wiring.py), scripted in-memory streams instead of sockets, CPython primitives as modelled. "
                   "Thermostat-control frames: theorem at the reference-layout level + correspondence (per-operation theorem is in C16).",
              tech="Lean 4 proof by reflection over generated templates (decide +kernel) + differential correspondence + Spec judge",
              ref="§7 C01"),
@@ -197,7 +197,7 @@ m = {
   {"name": "lean-proofs", "path": "lean/Switcher/Props", "serves_properties": sorted(CHECKS), "kind_free_text":
    "Lean 4 theorems about the executable model (lean/Switcher/Model) and the independent Spec (lean/Switcher/Spec)"},
   {"name": "translator", "path": "harness/gen_model.py", "serves_properties": sorted(CHECKS), "kind_free_text":
-   "regenerates lean/Switcher/Gen/*.lean (templates, wiring, tables, guards) from /repo on every run"},
+   "regenerates lean/Switcher/Gen/*.lean from /repo on every run: templates and tables by import, wiring by tracing one run per operation shape (trace_wiring.py), guards by probing"},
   {"name": "correspondence", "path": "harness/check.py", "serves_properties": sorted(CHECKS), "kind_free_text":
    "differential run of the real code and the compiled Lean model (modeldriver) on the same inputs/histories; observed "
    "behaviour judged by the Spec predicates (specjudge); failing-input search when a proof or the correspondence breaks"}],
